@@ -44,6 +44,7 @@ func coreC06(tier string) []RunSpec {
 	}
 	for k := 0; k < 16; k++ {
 		out = append(out, RunSpec{Profile: "core:racing-reject", Params: map[string]int{"rr": 1, "k": k}})
+		out = append(out, RunSpec{Profile: "core:racing-shared-outputs", Params: map[string]int{"rr": 2, "k": k}})
 	}
 	for sk := 0; sk < 7; sk++ {
 		for k := 0; k < 2; k++ {
@@ -440,6 +441,10 @@ func c06RacingReject(rc *RunCtx, m *MW, i int) {
 	W, T := rc.W, rc.T
 	ks := W.ActiveKeyset("A")
 	n := 2 + T.Choose("rr.n", 2)
+	if rc.P("rr", 0) == 2 || (rc.P("rr", 0) == 0 && T.Chance("rr.shared", 1, 3)) {
+		c06RacingSharedOutputs(rc, m, i, n)
+		return
+	}
 	rc.Op(fmt.Sprintf("racing-reject mint x%d", n))
 	var mq *MintQuote
 	rc.Quietly(func() {
@@ -507,6 +512,68 @@ func c06RacingReject(rc *RunCtx, m *MW, i int) {
 	if signed > 0 {
 		W.Book.Violate("C06.changed_state", "mint|race-sigs", "a mint request that was answered with an error left %d stored signatures behind", signed)
 	}
+}
+
+// c06RacingSharedOutputs: n paid quotes, n concurrent mint requests that all carry the same
+// outputs. The mint signs an output once, so at most one request wins; every request answered with an
+// error must leave its own quote as it was (PAID), and the corrected request (fresh outputs) must succeed.
+func c06RacingSharedOutputs(rc *RunCtx, m *MW, i int, n int) {
+	W := rc.W
+	ks := W.ActiveKeyset("A")
+	rc.Op(fmt.Sprintf("racing-reject mint x%d on %d quotes sharing their outputs", n, n))
+	mqs := make([]*MintQuote, n)
+	rc.Quietly(func() {
+		a := NewActor(W, fmt.Sprintf("s%d.rs", i))
+		for k := range mqs {
+			if mqs[k], _ = a.ReqMintQuote("A", 16, false); mqs[k] != nil {
+				W.LN.PayExternal(mqs[k].Hash)
+			}
+		}
+	})
+	for _, q := range mqs {
+		if q == nil {
+			return
+		}
+	}
+	shared := W.NewOutputs(Split(16), ks.ID)
+	ok := make([]bool, n)
+	answered := make([]bool, n)
+	rc.S.BeginEpisode()
+	for k := 0; k < n; k++ {
+		k := k
+		name := fmt.Sprintf("s%d.rs%d", i, k)
+		rc.S.Go(name, W.Ext, true, func() {
+			a := NewActor(W, name)
+			ps, r := a.Mint("A", mqs[k], shared, "")
+			answered[k] = r.Err == nil
+			if r.OK() {
+				ok[k] = true
+				m.User.Purse["A"] = append(m.User.Purse["A"], ps...)
+			}
+		})
+	}
+	rc.S.Drive(false)
+	rc.S.Probe("c06_racing_shared_outputs")
+	rc.Nontrivial = true
+	rc.Quietly(func() {
+		a := NewActor(W, fmt.Sprintf("s%d.rsq", i))
+		for k := range mqs {
+			if ok[k] || !answered[k] {
+				continue
+			}
+			r := a.PollMintQuote("A", mqs[k].ID)
+			if st := RespState(r); st != "PAID" {
+				W.Book.Violate("C06.changed_state", "mint|race-shared-outputs", "mint request on a paid quote was answered with an error (its outputs were being signed for another quote) and afterwards the quote is %q instead of PAID", st)
+				continue
+			}
+			ps, r2 := a.Mint("A", mqs[k], W.NewOutputs(Split(16), ks.ID), "")
+			if !r2.OK() {
+				W.Book.Violate("C06.valid_rejected", "mint|race-shared-outputs", "after the rejected request the corrected mint request is refused: %v", r2)
+				continue
+			}
+			m.User.Purse["A"] = append(m.User.Purse["A"], ps...)
+		}
+	})
 }
 
 // c06SemanticInvalid: well-formed requests that must be refused for what they ask (not for their
@@ -1030,7 +1097,7 @@ func runC06(rc *RunCtx) {
 			c06LockSecretMutants(rc, m, snapshot, i)
 			return
 		}
-		if (!hasOp && T.Chance("racingreject", 1, 6)) || rc.P("rr", 0) == 1 {
+		if (!hasOp && T.Chance("racingreject", 1, 6)) || rc.P("rr", 0) >= 1 {
 			c06RacingReject(rc, m, i)
 			return
 		}
